@@ -58,7 +58,7 @@ def run_one(job):
         if r['status'] == 'undecided' and 'rlimit' in r.get('reason', '').lower():
             outcome = 'undecided'
         failed = sorted(set(f.get('obligation') for f in r.get('failures', [])))
-        return dict(unit=unit, file=rel, desc=desc, status=r['status'], failed=failed, reason=r.get('reason', '')[:160])
+        return dict(unit=unit, file=rel, desc=desc, status=r['status'], failed=failed, reason=r.get('reason', '')[:160], soft=bool(r.get('soft_undecided')))
     finally:
         shutil.rmtree(root, ignore_errors=True)
 
@@ -92,7 +92,7 @@ def main():
     with ProcessPoolExecutor(max_workers=int(os.environ.get('SWEEP_JOBS', '6'))) as ex:
         for r in ex.map(run_one, jobs):
             new = [o for o in r['failed'] if o not in base[r['unit']]]
-            r['outcome'] = 'rejected' if (r['status'] == 'violation' and new) else ('undecided' if r['status'] == 'undecided' else 'SURVIVED')
+            r['outcome'] = 'rejected' if (r['status'] == 'violation' and new) else ('undecided' if (r['status'] == 'undecided' or r.get('soft')) else 'SURVIVED')
             res.append(r)
             if r['outcome'] != 'rejected':
                 print(f"{r['outcome']:9s} {r['unit']:18s} {r['desc']}" + (f"   [{r['reason'][:90]}]" if r['outcome'] == 'undecided' else ''), flush=True)
